@@ -10,17 +10,18 @@ import EmitModel.Lemmas.Traceparent
 namespace EmitModel.C18
 open EmitModel.Traceparent
 
+/- `hs` = a sampler is configured: only then does a root span cost a sampler call. -/
 mutual
-def roots (validActive : Bool) : Prog → Nat
+def roots (hs : Bool) (validActive : Bool) : Prog → Nat
   | .event => 0
-  | .span cs => (if validActive then 0 else 1) + rootsList true cs
-  | .spanThread cs => (if validActive then 0 else 1) + rootsList true cs
-  | .spanAsync cs => (if validActive then 0 else 1) + rootsList true cs
-  | .push tp cs => rootsList tp.valid cs
-  | .carry cs => rootsList validActive cs
-def rootsList (validActive : Bool) : List Prog → Nat
+  | .span cs => (if validActive then 0 else if hs then 1 else 0) + rootsList hs true cs
+  | .spanThread cs => (if validActive then 0 else if hs then 1 else 0) + rootsList hs true cs
+  | .spanAsync cs => (if validActive then 0 else if hs then 1 else 0) + rootsList hs true cs
+  | .push tp cs => rootsList hs tp.valid cs
+  | .carry cs => rootsList hs validActive cs
+def rootsList (hs : Bool) (validActive : Bool) : List Prog → Nat
   | [] => 0
-  | p :: ps => roots validActive p + rootsList validActive ps
+  | p :: ps => roots hs validActive p + rootsList hs validActive ps
 end
 
 mutual
@@ -39,7 +40,7 @@ end
 theorem openSpec_facts (c : Cfg) (e : Env) :
     ∃ a', (openSpec c e).2.2.1 = some a' ∧ a'.tp.valid = true ∧
       a'.tp.spanId = some (.gen (openSpec c e).2.2.2.rng) ∧ e.rng ≤ (openSpec c e).2.2.2.rng ∧
-      (openSpec c e).2.2.2.calls = e.calls + (if validOf e.st then 0 else 1) ∧
+      (openSpec c e).2.2.2.calls = e.calls + (if validOf e.st then 0 else if c.hasSampler then 1 else 0) ∧
       (openSpec c e).2.2.2.st = e.st := by
   unfold openSpec
   cases hf : e.st.filter (fun a => a.tp.valid) with
@@ -47,12 +48,21 @@ theorem openSpec_facts (c : Cfg) (e : Env) :
     have hv : validOf e.st = false := by simp [validOf, hf]
     dsimp only
     rw [hv]
-    refine ⟨_, rfl, ?_, ?_, ?_, ?_, ?_⟩
-    · simp only [TP.valid]; split <;> simp_all
-    · rfl
-    · split <;> omega
-    · trivial
-    · trivial
+    cases hsm : c.hasSampler
+    · simp only [Bool.false_eq_true, if_false]
+      refine ⟨_, rfl, ?_, ?_, ?_, ?_, ?_⟩
+      · simp only [TP.valid]; split <;> simp_all
+      · rfl
+      · split <;> omega
+      · trivial
+      · trivial
+    · simp only [if_true]
+      refine ⟨_, rfl, ?_, ?_, ?_, ?_, ?_⟩
+      · simp only [TP.valid]; split <;> simp_all
+      · rfl
+      · split <;> omega
+      · trivial
+      · trivial
   | some a =>
     have hv : validOf e.st = true := by simp [validOf, hf]
     have hav : a.tp.valid = true := by
@@ -76,9 +86,9 @@ theorem enterSt_self_none (st : Option Active) : enterSt st none = st := by
 
 theorem run_main_span (c : Cfg) (cs : List Prog) (e : Env) (hb : Below e.st e.rng)
     (ih : ∀ e' : Env, Below e'.st e'.rng →
-      e'.rng ≤ (runList c cs e').rng ∧ (runList c cs e').calls = e'.calls + rootsList (validOf e'.st) cs) :
+      e'.rng ≤ (runList c cs e').rng ∧ (runList c cs e').calls = e'.calls + rootsList c.hasSampler (validOf e'.st) cs) :
     e.rng ≤ (run c (.span cs) e).rng ∧
-    (run c (.span cs) e).calls = e.calls + ((if validOf e.st then 0 else 1) + rootsList true cs) := by
+    (run c (.span cs) e).calls = e.calls + ((if validOf e.st then 0 else if c.hasSampler then 1 else 0) + rootsList c.hasSampler true cs) := by
   simp only [run, openSpan_eq_spec c e hb]
   obtain ⟨a', hslot, hval, hsid, hrng, hcalls, hst⟩ := openSpec_facts c e
   simp only [hslot, enterSt, completeSpan_rng, completeSpan_calls]
@@ -89,7 +99,7 @@ theorem run_main_span (c : Cfg) (cs : List Prog) (e : Env) (hb : Below e.st e.rn
   omega
 
 theorem run_main (c : Cfg) : ∀ (p : Prog) (e : Env), ExtOnly p → Below e.st e.rng →
-    e.rng ≤ (run c p e).rng ∧ (run c p e).calls = e.calls + roots (validOf e.st) p
+    e.rng ≤ (run c p e).rng ∧ (run c p e).calls = e.calls + roots c.hasSampler (validOf e.st) p
   | .event, e, _, _ => by simp [run, observeEvent, roots]
   | .span cs, e, hx, hb => by
     simp only [roots]
@@ -119,7 +129,7 @@ theorem run_main (c : Cfg) : ∀ (p : Prog) (e : Env), ExtOnly p → Below e.st 
     have := run_list c cs { e with st := e.st } (by simpa [ExtOnly] using hx) hb
     simpa using this
   where run_list (c : Cfg) : ∀ (ps : List Prog) (e : Env), ExtOnlyList ps → Below e.st e.rng →
-    e.rng ≤ (runList c ps e).rng ∧ (runList c ps e).calls = e.calls + rootsList (validOf e.st) ps
+    e.rng ≤ (runList c ps e).rng ∧ (runList c ps e).calls = e.calls + rootsList c.hasSampler (validOf e.st) ps
   | [], e, _, _ => by simp [runList, rootsList]
   | p :: ps, e, hx, hb => by
     simp only [ExtOnlyList] at hx
@@ -143,7 +153,7 @@ theorem restore_after (c : Cfg) (p : Prog) (e : Env) : (run c p e).st = e.st := 
     valid pushed header). Never for a child span, never under a valid incoming header, and a carried frame
     continues the trace. For every program, sampler and starting state (rng ids fresh: `Below`). -/
 theorem sampler_once_per_root (c : Cfg) (p : Prog) (e : Env) (hx : ExtOnly p) (hb : Below e.st e.rng) :
-    (run c p e).calls = e.calls + roots (validOf e.st) p :=
+    (run c p e).calls = e.calls + roots c.hasSampler (validOf e.st) p :=
   (run_main c p e hx hb).2
 
 mutual
@@ -431,14 +441,30 @@ theorem pushed_header_parents_spans (c : Cfg) (tp : TP) (cs : List Prog) (e : En
 theorem async_polls_transparent (c : Cfg) (cs : List Prog) (e : Env) :
     run c (.spanAsync cs) e = run c (.span cs) e := run_spanAsync_eq c cs e
 
+/-- **Without a sampler every new trace is sampled** and nothing is consulted: a root span opened by a
+    sampler-less `TraceparentFilter` is enabled, its trace is sampled, the call count does not move — while a
+    span under a valid traceparent still inherits that traceparent's flag (`openSpec`'s other branch). -/
+theorem root_without_sampler_is_sampled (c : Cfg) (e : Env) (hns : c.hasSampler = false)
+    (hv : validOf e.st = false) :
+    (openSpec c e).1 = true ∧ (openSpec c e).2.2.2.calls = e.calls ∧
+    ∃ a, (openSpec c e).2.2.1 = some a ∧ a.tp.sampled = true ∧ a.spanParent = none := by
+  have hf : e.st.filter (fun a => a.tp.valid) = none := by
+    cases h : e.st.filter (fun a => a.tp.valid) with
+    | none => rfl
+    | some a => simp [validOf, h] at hv
+  unfold openSpec
+  simp only [hf, hns, Bool.false_eq_true, if_false]
+  exact ⟨trivial, trivial, _, rfl, by simp [TP.sampled], rfl⟩
+
 /-- **Defect (before the fix)**: a frame captured with `Frame::current` was inactive, so on a fresh thread the
     trace was lost: no active traceparent there. -/
 theorem carry_unfixed_loses_trace (st : Option Active) : carryUnfixedInside st = none := rfl
 
 /-! ### Non-vacuity -/
-private def cfg0 : Cfg := ⟨[true, false], false⟩
+private def cfg0 : Cfg := ⟨true, [true, false], false⟩
 example : (run cfg0 (.span [.event, .span [.event]]) env0).calls = 1 := by decide
 example : (run cfg0 (.span [.carry [.span []], .spanThread [.event]]) env0).calls = 1 := by decide
-example : roots false (.span [.span [], .push ⟨none, none, 1⟩ [.span []]]) = 2 := by decide
+example : roots true false (.span [.span [], .push ⟨none, none, 1⟩ [.span []]]) = 2 := by decide
+example : roots false false (.span [.span [], .push ⟨none, none, 1⟩ [.span []]]) = 0 := by decide
 
 end EmitModel.C18
